@@ -60,6 +60,40 @@ type matcherCompiler struct {
 	dots []token.Pos
 
 	patchStart, patchEnd token.Pos
+
+	// Number of times each metavariable occurs in the "-" side of the
+	// change. Set by compileFile; nil if unknown.
+	metaUses map[string]int
+}
+
+// countMetavars records the metavariable occurrences below v in metaUses.
+func (c *matcherCompiler) countMetavars(v reflect.Value) {
+	switch v.Type() {
+	case goast.ObjectPtrType, goast.ScopePtrType, goast.CommentGroupPtrType:
+		return
+	case goast.IdentPtrType:
+		if !v.IsNil() {
+			if name := v.Interface().(*ast.Ident).Name; c.meta.LookupVar(name) != 0 {
+				c.metaUses[name]++
+			}
+		}
+		return
+	}
+
+	switch v.Kind() {
+	case reflect.Ptr, reflect.Interface:
+		if !v.IsNil() {
+			c.countMetavars(v.Elem())
+		}
+	case reflect.Struct:
+		for i := 0; i < v.NumField(); i++ {
+			c.countMetavars(v.Field(i))
+		}
+	case reflect.Slice:
+		for i := 0; i < v.Len(); i++ {
+			c.countMetavars(v.Index(i))
+		}
+	}
 }
 
 func newMatcherCompiler(fset *token.FileSet, meta *Meta, patchStart, patchEnd token.Pos) *matcherCompiler {
